@@ -132,12 +132,14 @@ def build_cli():
 
 # ------------------------------------------------------------------ workers
 
-def _limits():
+def _limits(gib=8):
     # address-space cap: a program denoting a value that does not fit in memory ends
     # in an allocation-failure abort which is classed `resource`, not a crash
-    gib = 8 * 1024 ** 3
-    resource.setrlimit(resource.RLIMIT_AS, (gib, gib))
-    resource.setrlimit(resource.RLIMIT_CORE, (0, 0))
+    def f():
+        b = int(gib * 1024 ** 3)
+        resource.setrlimit(resource.RLIMIT_AS, (b, b))
+        resource.setrlimit(resource.RLIMIT_CORE, (0, 0))
+    return f
 
 
 class Worker:
@@ -145,7 +147,7 @@ class Worker:
     `panic` (from the worker's panic monitor), `crash` (process died: signal / code,
     with stderr tail), `timeout` (watchdog fired; inconclusive)."""
 
-    def __init__(self, binary, env=None, cwd=None, timeout=60.0, wrapper=None, limits=True):
+    def __init__(self, binary, env=None, cwd=None, timeout=60.0, wrapper=None, limits=True, mem_gib=8):
         self.binary = binary
         self.env = dict(ENV_BASE)
         self.env.pop("JRSONNET_LEGACY_PARSER", None)
@@ -155,6 +157,7 @@ class Worker:
         self.timeout = timeout
         self.wrapper = wrapper or []
         self.limits = limits
+        self.mem_gib = mem_gib
         self.p = None
         self.restarts = 0
         self.buf = b""
@@ -164,14 +167,17 @@ class Worker:
         self.errf = open(self.stderr_path, "wb")
         self.p = subprocess.Popen(self.wrapper + [self.binary], stdin=subprocess.PIPE,
                                   stdout=subprocess.PIPE, stderr=self.errf, env=self.env,
-                                  cwd=self.cwd, preexec_fn=_limits if self.limits else None)
+                                  cwd=self.cwd, preexec_fn=_limits(self.mem_gib) if self.limits else None)
         self.buf = b""
 
     def _stderr_tail(self):
         try:
             self.errf.flush()
             with open(self.stderr_path, "rb") as f:
-                return f.read()[-1500:].decode("utf-8", "replace")
+                d = f.read()
+                if len(d) > 1600:
+                    d = d[:800] + b"\n...\n" + d[-800:]
+                return d.decode("utf-8", "replace")
         except Exception:
             return ""
 
